@@ -261,6 +261,34 @@ def scenario_direct_edit(run):
                         theorem="C03_direct_edit_refuted")
 
 
+def scenario_unsuccessful_refit(run):
+    """a successful fit followed by a fit that cannot be performed (range
+    without data; relative range with too few points): what is shown is what a
+    fresh curve with the stored settings shows"""
+    for name, kw in [("absolute-range-without-data",
+                      dict(range_type="absolute", range_x=[1.0, 2.0])),
+                     ("relative-range-too-few-points",
+                      dict(range_type="relative cp", range_x=[1e-3, 2e-3])),
+                     ("absolute-range-two-points",
+                      dict(range_type="absolute", range_x=[-1e-9, 1e-9]))]:
+        cols = m1.small_curve(4)
+        idnt = curves.make_indentation(cols)
+        idnt.apply_preprocessing(["compute_tip_position", "correct_force_offset",
+                                  "correct_tip_offset"])
+        run.case({"scenario": "unsuccessful-refit", "kind": name},
+                 kind="scenario")
+        try:
+            idnt.fit_model(model_key="hertz_para")
+            idnt.fit_model(**copy.deepcopy(kw))
+            why = compare_with_fresh(idnt, cols)
+        except BaseException as e:
+            why = f"raised {type(e).__name__}: {e}"
+        if why:
+            run.failing(SITE, "unsuccessful-refit:" + name,
+                        f"successful fit, then fit_model({kw}): {why}",
+                        payload={"kind": "rerun"}, theorem="C03_valid")
+
+
 def scenario_gcf(run):
     """regression for the repaired in-place rescaling of the contact point"""
     ok = True
@@ -386,6 +414,7 @@ def check(run):
     setitem_sweep(run)
     near_equal_corpus(run)
     scenario_direct_edit(run)
+    scenario_unsuccessful_refit(run)
     ok, detail = scenario_gcf(run)
     for k in run.known:
         if k.get("status") == "fixed" and k["id"].startswith("C03/gcf"):
